@@ -44,6 +44,13 @@ Definition check_consistent_fill_value (arrays : list pyv) : res pyv :=
 (* check_fill_value(x, accept_fv=None) — loose comparison, default accept list [0] *)
 Definition check_fill_value (x accept_fv : pyv) : res pyv := s_check_fill_value x accept_fv.
 
+(* check_fill_value(x) with the default accept list, for every array a guard names (the code passes one) *)
+Fixpoint check_fill_values (xs : list pyv) : res pyv :=
+  match xs with
+  | [] => Ok VNone
+  | x :: r => _ <- check_fill_value x VNone ;; check_fill_values r
+  end.
+
 (* ------------------------------------------------------------------ (2) abstract operation semantics *)
 (* operand environment: parameter name -> fill values of the sparse arrays it denotes (a plain array
    parameter: one; a list / starred parameter: several).  Operands that are not sparse arrays are not bound. *)
@@ -61,10 +68,7 @@ Definition run_guard (rho : env) (g : guard) : res pyv :=
   match g_kind g with
   | GZero => check_zero_fill_value (guard_args rho g)
   | GConsistent => check_consistent_fill_value (guard_args rho g)
-  | GAccept => match guard_args rho g with
-               | [x] => check_fill_value x VNone
-               | _ => Ok VNone
-               end
+  | GAccept => check_fill_values (guard_args rho g)
   end.
 
 Fixpoint run_guards (rho : env) (gs : list guard) : res pyv :=
